@@ -206,6 +206,50 @@ class LocalEnv:
 
     _CONTAINERS = ('std::map<', 'std::set<', 'std::vector<', 'std::unordered_', 'std::list<', 'std::queue<', 'std::deque<', 'std::multimap<', 'std::multiset<')
 
+    def _changed_after(self, dloc, xdloc):
+        """is local xdloc assigned / modified in the statements that follow the declaration dloc inside the block that declares it?"""
+        decl = self.decls.get(dloc)
+        fn = self.fn
+        if decl is None or not hasattr(fn, 'parent'):
+            return True
+        st = fn.parent(decl)
+        blk = fn.parent(st) if st is not None else None
+        if st is None or blk is None or blk.get('k') != 'CompoundStmt':
+            return True
+        sibs = list(blk.get('c') or ())
+        try:
+            i = [k for k, y in enumerate(sibs) if y is st][0]
+        except IndexError:
+            return True
+        ASSIGN = ('=', '+=', '-=', '*=', '/=', '%=', '|=', '&=', '^=', '<<=', '>>=', '++', '--')
+        for y in sibs[i + 1:]:
+            for n in _walk(y):
+                k = n.get('k')
+                tgt = None
+                if k in ('BinaryOperator', 'CompoundAssignOperator') and n.get('op') in ASSIGN:
+                    tgt = n['c'][0]
+                elif k == 'UnaryOperator' and n.get('op') in ('++', '--', '&'):
+                    tgt = (n.get('c') or [None])[0]
+                elif k == 'CXXOperatorCallExpr' and n.get('op') in ASSIGN and len(n.get('c') or ()) > 1:
+                    tgt = n['c'][1]
+                elif k == 'CXXMemberCallExpr' and not (n.get('callee') or '').endswith(' const'):
+                    me = n['c'][0]
+                    tgt = (me.get('c') or [None])[0] if me.get('k') == 'MemberExpr' else None
+                g = 0
+                while isinstance(tgt, dict) and g < 16:
+                    g += 1
+                    if tgt.get('k') == 'DeclRefExpr':
+                        if tgt.get('dloc') == xdloc:
+                            return True
+                        break
+                    if tgt.get('k') in ('MemberExpr', 'ArraySubscriptExpr') or (tgt.get('k') == 'UnaryOperator' and tgt.get('op') == '*'):
+                        tgt = (tgt.get('c') or [None])[0]
+                    elif tgt.get('k') == 'CXXOperatorCallExpr' and tgt.get('op') in ('[]', '*', '->'):
+                        tgt = tgt['c'][1] if len(tgt.get('c') or ()) > 1 else None
+                    else:
+                        break
+        return False
+
     def pure_init(self, decl):
         """does evaluating the initialiser do nothing but compute a value (no call that may create or change something)?"""
         init = decl.get('init')
@@ -256,8 +300,11 @@ class LocalEnv:
                     break
                 if x.get('k') == 'DeclRefExpr' and x.get('local') and (x.get('dloc') in self.assigned or (x.get('dloc') in self.no_alias and x.get('dloc') in self.decls
                                                                                                          and not (self.types.get(x.get('dloc')) or '').rstrip().endswith(('&', '*')))):
-                    c = False       # reads a local that is itself re-assigned / modified in place (objects reached through references are covered by the member test)
-                    break
+                    # reads a local that is itself re-assigned / modified in place (objects reached through references are covered by the member test):
+                    # still only a name when nothing changes that local during the lifetime of this one (the rest of its own block)
+                    if self._changed_after(dloc, x.get('dloc')):
+                        c = False
+                        break
                 if x.get('k') == 'CXXMemberCallExpr' and not (x.get('callee') or '').endswith(' const') and not (x.get('callee_name') or '').startswith('std::') and \
                         not (x.get('callee_name') or '').rsplit('::', 1)[-1].startswith(('get_', 'is_')):      # get_x() / is_x() are the repository's accessors
                     # a call that may create or change something (sat->new_var(), new_distance(..)): the local holds its RESULT;
